@@ -45,6 +45,8 @@ func (s *State) clone() *State {
 
 // Region is a set of cells [Lo,Hi) of object Obj (all cells when Whole), restricted to heap sorts Sorts (nil = all).
 type Region struct {
+	Owner  string // with TypeID: only the objects whose ghost owner is this object id ("owned(m, T)")
+	Map    bool   // the object is a map: only the map heaps are concerned
 	TypeID string // if set: all cells of all objects whose dynamic type has this id ("alltyped(T)")
 	Obj    string
 	Lo, Hi string
@@ -104,6 +106,7 @@ type Gen struct {
 	extraTrusted map[string]bool
 	UsedSpecs map[string]bool
 	frozen   bool
+	rangeAssumed map[string]bool
 	shapeErrors []string
 	errClasses []string
 	prelude  []string // assertions that hold globally (placed before all commands)
@@ -171,7 +174,62 @@ func (g *Gen) oblige(kind, label string, pos token.Pos, cond string) *Obl {
 	return g.obligeAt(kind, label, g.posOf(pos), g.curPC, cond)
 }
 
+// splitConj splits a goal into its top-level conjuncts (through implications), so that each
+// obligation stays small: (and a b) -> a, b ; (=> p (and a b)) -> (=> p a), (=> p b).
+func splitConj(t string, depth int) []string {
+	if depth > 8 || !strings.HasPrefix(t, "(") {
+		return []string{t}
+	}
+	f, as := topArgs(t)
+	switch f {
+	case "forall":
+		// (forall (binders) body) with no pattern annotation: distribute over the conjuncts of body
+		if len(as) == 2 && !strings.HasPrefix(as[1], "(!") {
+			parts := splitConj(as[1], depth+1)
+			if len(parts) > 1 {
+				var out []string
+				for _, p := range parts {
+					out = append(out, "(forall "+as[0]+" "+p+")")
+				}
+				return out
+			}
+		}
+		return []string{t}
+	case "and":
+		var out []string
+		for _, a := range as {
+			out = append(out, splitConj(a, depth)...)
+		}
+		return out
+	case "=>":
+		if len(as) == 2 {
+			var out []string
+			for _, q := range splitConj(as[1], depth+1) {
+				out = append(out, sImp(as[0], q))
+			}
+			return out
+		}
+	}
+	return []string{t}
+}
+
 func (g *Gen) obligeAt(kind, label, pos, pc, cond string) *Obl {
+	switch kind {
+	case "ensures", "requires", "inv-entry", "inv-preserved":
+		if parts := splitConj(cond, 0); len(parts) > 1 && len(parts) <= 600 {
+			var last *Obl
+			for i, p := range parts {
+				if o := g.obligeAt1(kind, fmt.Sprintf("%s/%d", label, i+1), pos, pc, p); o != nil {
+					last = o
+				}
+			}
+			return last
+		}
+	}
+	return g.obligeAt1(kind, label, pos, pc, cond)
+}
+
+func (g *Gen) obligeAt1(kind, label, pos, pc, cond string) *Obl {
 	goal := sImp(pc, cond)
 	if goal == "true" {
 		return nil
@@ -322,6 +380,33 @@ func (g *Gen) copyRange(st *State, dst string, sst *State, src string, sort stri
 
 // havocRegion replaces the cells of region r by unknown values in st.
 func (g *Gen) havocRegion(st *State, r Region) {
+	if r.Map {
+		for _, h := range g.allHeapNames() {
+			if !strings.HasPrefix(h, "M_") {
+				continue
+			}
+			full := g.heaps[h]
+			// inner sort: strip "(Array Int " ... ")"
+			inner := strings.TrimSuffix(strings.TrimPrefix(full, "(Array Int "), ")")
+			fr := g.freshConst("hvm", inner)
+			cur := h + "@0"
+			if t, ok := st.H[h]; ok {
+				cur = t
+			}
+			g.setRawHeap(st, h, app("store", cur, r.Obj, fr))
+		}
+		// ownership: objects may leave the map, and only objects allocated meanwhile may join it
+		if _, ok := g.cellHeaps["H_GOwn"]; ok {
+			old := g.heapTerm(st, "GOwn")
+			nh := g.freshConst("H_GOwn", g.L.HeapSort("GOwn"))
+			own := func(h string) string { return app("select", app("select", h, "o!q"), g.M.IxLit(0)) }
+			g.assume(fmt.Sprintf("(forall ((o!q Int)) (! (and (=> (not (= %s %s)) (or (= (select %s o!q) (select %s o!q)) (and (= %s %s) (> o!q %s)))) (=> (and (= %s %s) (<= o!q %s)) (= %s %s))) :pattern ((select %s o!q))))",
+				own(old), r.Obj, nh, old, own(nh), r.Obj, st.Alloc,
+				own(nh), r.Obj, st.Alloc, own(old), r.Obj, nh))
+			st.H["H_GOwn"] = nh
+		}
+		return
+	}
 	sorts := r.Sorts
 	if sorts == nil {
 		if r.T != nil && !r.Whole {
@@ -342,7 +427,11 @@ func (g *Gen) havocRegion(st *State, r Region) {
 		if r.TypeID != "" {
 			fr := g.freshConst("hvt", g.L.HeapSort(s))
 			nh := g.freshConst(heapName(s), g.L.HeapSort(s))
-			g.assume(fmt.Sprintf("(forall ((o!q Int)) (! (= (select %s o!q) (ite (= (objtype o!q) %s) (select %s o!q) (select %s o!q))) :pattern ((select %s o!q))))", nh, r.TypeID, fr, ht, nh))
+			cond := fmt.Sprintf("(= (objtype o!q) %s)", r.TypeID)
+			if r.Owner != "" {
+				cond = sAnd(cond, sEq(app("select", app("select", g.heapTerm(st, "GOwn"), "o!q"), g.M.IxLit(0)), r.Owner))
+			}
+			g.assume(fmt.Sprintf("(forall ((o!q Int)) (! (= (select %s o!q) (ite %s (select %s o!q) (select %s o!q))) :pattern ((select %s o!q))))", nh, cond, fr, ht, nh))
 			st.H[g.heapFor(s)] = nh
 			continue
 		}
@@ -388,8 +477,15 @@ func (g *Gen) havocAll(st *State) {
 
 // inRegion: cell (obj,off) of sort lies in r
 func (g *Gen) inRegion(p string, r Region) string {
+	if r.Map {
+		return "false"
+	}
 	if r.TypeID != "" {
-		return sEq(app("objtype", pObj(p)), r.TypeID)
+		c := sEq(app("objtype", pObj(p)), r.TypeID)
+		if r.Owner != "" {
+			c = sAnd(c, sEq(app("select", app("select", g.heapTerm(g.cur, "GOwn"), pObj(p)), g.M.IxLit(0)), r.Owner))
+		}
+		return c
 	}
 	if r.Whole {
 		return sEq(pObj(p), r.Obj)
@@ -398,11 +494,30 @@ func (g *Gen) inRegion(p string, r Region) string {
 }
 
 func (g *Gen) regionSub(a, b Region) string {
+	if a.Map != b.Map {
+		return "false"
+	}
+	if a.Map {
+		return sEq(a.Obj, b.Obj)
+	}
 	if b.TypeID != "" {
 		if a.TypeID != "" {
-			return boolLit(a.TypeID == b.TypeID)
+			if a.TypeID != b.TypeID {
+				return "false"
+			}
+			if b.Owner == "" {
+				return "true"
+			}
+			if a.Owner == "" {
+				return "false"
+			}
+			return sEq(a.Owner, b.Owner)
 		}
-		return sEq(app("objtype", a.Obj), b.TypeID)
+		c := sEq(app("objtype", a.Obj), b.TypeID)
+		if b.Owner != "" {
+			c = sAnd(c, sEq(app("select", app("select", g.heapTerm(g.cur, "GOwn"), a.Obj), g.M.IxLit(0)), b.Owner))
+		}
+		return c
 	}
 	if a.TypeID != "" {
 		return "false"
